@@ -335,7 +335,7 @@ def _dispatch(task):
 def trees(tier):
     t = [s for s in S.D2() if s["t"] in S.COLL or s["t"] in ("Bin", "CentrallyBin", "IrregularlyBin", "Stack", "Fraction",
                                                               "Select")]
-    t += S.D3flow()
+    t += S.D3flow() + S.D3_quick()
     # nestings in which a node can be installed as its own descendant
     cnt, sm = {"t": "Count"}, {"t": "Sum", "q": "y"}
     t += [{"t": "Select", "q": "s", "v": {"t": "Select", "q": "s", "v": cnt}},
